@@ -406,7 +406,9 @@ func (ss *sess) collect(fs []*fence) (map[*fence][]notif.Msg, bool) {
 	out := map[*fence][]notif.Msg{}
 	// 3. collect
 	if len(chans) > 0 {
-		res, v, why := ss.sub.Collect(markN, chans, opts)
+		copts := opts
+		copts.Watchdog = 2 * notif.DefaultWatchdog
+		res, v, why := ss.sub.Collect(markN, chans, copts)
 		if v != notif.Arrived {
 			ss.markerTrouble("chan", v, why)
 			return nil, false
@@ -421,16 +423,8 @@ func (ss *sess) collect(fs []*fence) (map[*fence][]notif.Msg, bool) {
 		if f.kind == kChan {
 			continue
 		}
-		id := f.pending
-		got, v, why := f.stream.Await(func(m notif.Msg) bool { return m.ID() == id }, opts)
-		if v == notif.Lost {
-			// no time bound in the statement: wait one more watchdog period before concluding
-			more, v2, why2 := f.stream.Await(func(m notif.Msg) bool { return m.ID() == id }, opts)
-			got, v, why = append(got, more...), v2, why2
-			ss.ctx.Count("marker_second_wait", 1)
-		}
-		if v != notif.Arrived {
-			ss.markerTrouble(kindName[f.kind]+":D="+f.dname+":C="+f.aname, v, why)
+		got, ok := ss.awaitObjMarker(f, opts)
+		if !ok {
 			return nil, false
 		}
 		ss.ctx.Count("markers_"+kindName[f.kind], 1)
@@ -450,6 +444,50 @@ func (ss *sess) collect(fs []*fence) (map[*fence][]notif.Msg, bool) {
 		out[f] = keep
 	}
 	return out, !ss.dead
+}
+
+// awaitObjMarker waits for the marker object's message on a webhook / live
+// stream. Not arriving within two watchdog periods while the server answers
+// PING: the marker move is issued once more with a fresh id. If that one
+// arrives, the first was a one-off delivery loss (C10's property; webhook
+// messages are legitimately dropped after 30 s of failed sends) and the run is
+// inconclusive; if it does not arrive either, the hook does not produce the
+// message the statement requires: violation.
+func (ss *sess) awaitObjMarker(f *fence, opts notif.WaitOpts) ([]notif.Msg, bool) {
+	var got []notif.Msg
+	var v notif.Verdict
+	var why string
+	for attempt := 0; attempt < 2; attempt++ {
+		id := f.pending
+		pred := func(m notif.Msg) bool { return m.ID() == id }
+		var part []notif.Msg
+		part, v, why = f.stream.Await(pred, opts)
+		got = append(got, part...)
+		if v == notif.Lost {
+			part, v, why = f.stream.Await(pred, opts)
+			got = append(got, part...)
+			ss.ctx.Count("marker_second_wait", 1)
+		}
+		if v == notif.Arrived {
+			if attempt == 1 {
+				ss.infra("marker of a %s fence was lost once; the re-issued marker arrived (delivery hiccup, not judged here)", kindName[f.kind])
+				return nil, false
+			}
+			return got, true
+		}
+		if v != notif.Lost || attempt == 1 {
+			break
+		}
+		ss.mkN++
+		f.pending = fmt.Sprintf("%s%d", markerPrefix, ss.mkN)
+		ss.ctx.Count("marker_reissued", 1)
+		if !ss.moveMarker(f, f.pending) {
+			return nil, false
+		}
+		ss.do("DEL", ss.key, f.pending)
+	}
+	ss.markerTrouble(kindName[f.kind]+":D="+f.dname+":C="+f.aname, v, why)
+	return nil, false
 }
 
 func (ss *sess) markerTrouble(what string, v notif.Verdict, why string) {
